@@ -82,7 +82,7 @@ func (e *integEngine) checkC19() {
 		if info.Block != "cmd" {
 			continue
 		}
-		plan := e.w.Plan(info.ID)
+		plan := e.w.PlanFor(info.ID, e.pl.identity(info.GID))
 		k := pos[info.Key]
 		pos[info.Key] = k + 1
 		if k >= len(plan.Chunks) {
